@@ -23,16 +23,30 @@ func partialRows(tier string) []uint8 {
 func (r *Runner) replayPartial(l *Line) lineResult {
 	r.internLine(l)
 	w := NewWorld(r.sy, WorldCfg{Rows: partialRows(r.cfg.Tier), Seed: r.cfg.Seed, MapPart: true})
+	w.serial = r.serial
+	w.evlog = r.logEvent
+	w.pcached = map[int]bool{}
 	steps := append(append([]Step{}, l.Hist...), l.Step)
 	for i := range steps {
 		w.stepI = i
+		w.serial = r.serial && i == len(steps)-1
+		if steps[i].A == "missq" {
+			w.partialMissQ(&steps[i], &l.Expect)
+			continue
+		}
 		w.partialStep(&steps[i])
 		w.checkRoots(steps[i].Post, "C09")
 	}
-	w.partialCompare(&l.Expect)
+	if l.Step.A != "missq" {
+		w.partialCompare(&l.Expect)
+	}
 	st := &l.Step
-	return lineResult{fails: w.fails, calls: w.mon.ncalls, insts: len(w.insts),
+	res := lineResult{fails: w.fails, calls: w.mon.ncalls, insts: len(w.insts),
 		nontrivial: !(st.A == "mod" && len(st.D) == 0 && st.K == 0)}
+	if w.nserial > 0 {
+		res.extra = map[string]int{"fault_runs": w.nserial}
+	}
+	return res
 }
 
 func (w *World) partialStep(st *Step) {
@@ -57,6 +71,46 @@ func (w *World) partialStep(st *Step) {
 	rem := map[int]bool{}
 	for _, i := range st.Rem {
 		rem[i] = true
+	}
+	if st.A == "restore" {
+		w.ctx["C13"] = true
+		tracked := []int{}
+		for s := range w.pcached {
+			tracked = append(tracked, s)
+		}
+		sort.Ints(tracked)
+		w.roundTrip(w.n, func(in *Inst) []int { return tracked })
+		return
+	}
+	// the abstract set of remembered leaves, followed along the steps
+	switch st.A {
+	case "mod":
+		for _, d := range st.D {
+			delete(w.pcached, d)
+		}
+		for i := range rem {
+			w.pcached[int(w.n)+i] = true
+		}
+	case "vrem", "ingest":
+		for _, s := range st.S {
+			w.pcached[s] = true
+		}
+	case "prune":
+		for _, s := range st.S {
+			delete(w.pcached, s)
+		}
+	case "undo":
+		prevN := w.nStk[len(w.nStk)-1]
+		for s := range w.pcached {
+			if uint64(s) >= prevN {
+				delete(w.pcached, s)
+			}
+		}
+		for _, d := range st.D {
+			w.pcached[d] = true
+		}
+	case "fromroots":
+		w.pcached = map[int]bool{}
 	}
 	for idx, in := range w.insts {
 		in := in
@@ -260,3 +314,80 @@ func (w *World) partialCompare(exp *Expect) {
 }
 
 var _ = sort.Ints
+
+// partialMissQ: which proof positions does the instance lack for proving the
+// live leaves st.S (C14)?  Exactly the canonical proof positions it does not
+// store; supplying the true hashes there must make VerifyPartialProof accept.
+func (w *World) partialMissQ(st *Step, exp *Expect) {
+	props := []string{"C14"}
+	R := treeRows(exp.N)
+	nodeAt := map[RI]string{}
+	for _, nd := range exp.Nodes {
+		nodeAt[nd.RI()] = nd.Hash
+	}
+	lower := map[RI]bool{}
+	upper := map[RI]bool{}
+	for _, p := range exp.Lower {
+		lower[p.RI()] = true
+	}
+	for _, p := range exp.Upper {
+		upper[p.RI()] = true
+	}
+	targets := w.encTargets(st.Pf.T, R)
+	hashes := w.leafHashes(st.S)
+	for _, in := range w.insts {
+		in := in
+		pan := protect(func() {
+			T := in.M.TotalRows
+			stored := map[RI]bool{}
+			in.M.Nodes.ForEach(func(pos uint64, lf utreexo.Leaf) error {
+				if ri, ok := dec(pos, T); ok {
+					stored[ri] = true
+				}
+				return nil
+			})
+			want := []uint64{}
+			wantH := []Hash{}
+			for _, p := range exp.Pp {
+				ri := p.RI()
+				if stored[ri] {
+					continue
+				}
+				if lower[ri] {
+					w.fail([]string{"C09"}, in, "stored.missing", fmt.Sprintf("position %v is needed but not stored", ri), nil, nil)
+				}
+				want = append(want, enc(ri, R))
+				t, ok := nodeAt[ri]
+				if !ok {
+					t = "0"
+				}
+				wantH = append(wantH, w.sy.H(t))
+			}
+			// pp is sorted by (row, idx), which is the numeric order
+			g := w.mon.begin(in, "MapPollard.GetMissingPositions")
+			got := in.M.GetMissingPositions(g.U("targets", targets))
+			g.end()
+			if !eqU64s(sortedU64(got), sortedU64(want)) {
+				w.fail(props, in, "missing.map", fmt.Sprintf("MapPollard.GetMissingPositions(%v)", targets), sortedU64(want), sortedU64(got))
+				return
+			}
+			g = w.mon.begin(in, "VerifyPartialProof")
+			err := in.M.VerifyPartialProof(g.U("targets", targets), g.H("delHashes", hashes), g.H("proofHashes", wantH), false)
+			g.end()
+			if err != nil {
+				w.fail(props, in, "missing.verify", fmt.Sprintf("VerifyPartialProof(%v) rejects the true hashes at the missing positions %v: %v", targets, want, err), nil, nil)
+			}
+			// a wrong hash at a missing position must be rejected (C03)
+			if len(wantH) > 0 {
+				bad := append([]Hash{}, wantH...)
+				bad[len(bad)-1] = w.sy.H(junkTerm(7))
+				if err := in.M.VerifyPartialProof(targets, hashes, bad, false); err == nil {
+					w.fail([]string{"C03"}, in, "missing.unsound", fmt.Sprintf("VerifyPartialProof(%v) accepts a fresh hash at missing position %d", targets, want[len(want)-1]), nil, nil)
+				}
+			}
+		})
+		if pan != "" {
+			w.fail(props, in, "panic", "missing-position query panicked: "+pan, nil, nil)
+		}
+	}
+}
